@@ -59,7 +59,10 @@ def _run_one(prop, spec, ctx):
         ctx.counters["rejected"] += 1
     except (HarnessError, StopShrink):
         raise
-    except Exception as e:
+    except BaseException as e:
+        # (msdm's DomainError derives from BaseException: library-defined exception classes are handled like Exception)
+        if not isinstance(e, Exception) and not type(e).__module__.startswith("msdm"):
+            raise
         # An exception raised *inside msdm* (innermost frame in the library) while the harness was using its
         # public API is a violation of the property under test ("the call succeeds"), not a harness error;
         # anything raised by harness code itself stays a harness error.
@@ -224,6 +227,15 @@ def write_evidence(pid, tier, seed, m, wall, nviol):
         "rejected_by_precondition": int(m["counters"].get("rejected", 0)),
         "exhaustive": False,
     }
+    if m.get("fuzz"):
+        cov["coverage_guided_stage"] = {
+            "engine": "atheris / libFuzzer driving the same Hypothesis strategies (fuzz_one_input) and the same oracles; "
+                      "branch coverage of the msdm package is the feedback signal",
+            "campaigns": m["fuzz"],
+            "executions": sum(f.get("executions", 0) for f in m["fuzz"]),
+            "decoded_to_a_case": sum(f.get("decoded_to_a_case", 0) for f in m["fuzz"]),
+            "note": "cases of this stage are included in evaluations / distinct_nontrivial above",
+        }
     if not cov["samples"]:
         cov["samples"] = [{"note": "no non-trivial case recorded"}]
     ev = {
@@ -278,6 +290,99 @@ def _default_shards(pid, tier):
     return 4 if tier == "quick" else 16
 
 
+def _fuzz_config(pid, tier):
+    """FUZZ = {"props": [...], "quick": [workers, executions per worker], "thorough": [...]} in the check module
+    (read textually, like SHARDS). Returns (props, workers, runs) or None."""
+    import re
+    try:
+        src = open(os.path.join(HERE, "checks", pid.lower() + ".py")).read()
+        m = re.search(r"^FUZZ\s*=\s*(\{.*?\})\s*$", src, re.M | re.S)
+        if not m:
+            return None
+        cfg = json.loads(m.group(1).replace("'", '"'))
+        workers, runs = cfg.get(tier, [0, 0])
+        if os.environ.get("VERIF_FUZZ", "1") == "0" or workers <= 0 or runs <= 0:
+            return None
+        return cfg["props"], int(workers), int(runs)
+    except Exception:
+        return None
+
+
+def _ensure_atheris():
+    """atheris lives in /verif/.deps (not committed): install it from the offline wheelhouse when missing."""
+    import subprocess
+    deps = os.path.join(VERIF_ROOT, ".deps")
+    if os.path.isdir(os.path.join(deps, "atheris")):
+        return True
+    try:
+        subprocess.run([sys.executable, "-m", "pip", "install", "-q", "--no-index", "--find-links", "/opt/veriftools/wheels",
+                        "--target", deps, "atheris"], check=True, capture_output=True, timeout=300)
+    except Exception:
+        return False
+    return os.path.isdir(os.path.join(deps, "atheris"))
+
+
+def run_fuzz_stage(pid, tier, seed, prop_filter):
+    """Coverage-guided stage (vpm/fuzz.py): one libFuzzer campaign per worker process. Returns shard-style records."""
+    import shutil
+    import subprocess
+    import tempfile
+    cfg = _fuzz_config(pid, tier)
+    if cfg is None:
+        return []
+    props, workers, runs = cfg
+    if not _ensure_atheris():
+        print(f"note: coverage-guided stage of {pid} skipped (atheris could not be installed from the offline wheelhouse)")
+        return []
+    if prop_filter:
+        props = [p for p in props if p in prop_filter]
+        if not props:
+            return []
+    jobs = int(os.environ.get("VERIF_JOBS", "0"))
+    if jobs:
+        workers = max(len(props), min(workers, jobs))
+    tmp = tempfile.mkdtemp(prefix=f"vpm-fuzz-{pid}-")
+    env = dict(os.environ)
+    env["PYTHONPATH"] = os.pathsep.join([os.path.join(VERIF_ROOT, ".deps"), VERIF_ROOT, REPO_ROOT, env.get("PYTHONPATH", "")])
+    procs = []
+    try:
+        for i in range(workers):
+            outp = os.path.join(tmp, f"w{i}.json")
+            log = open(os.path.join(tmp, f"w{i}.log"), "w")
+            pr = subprocess.Popen([sys.executable, "-W", "ignore", "-m", "vpm.fuzz", pid, tier, str(seed), str(i), str(runs), outp,
+                                   ",".join(props)], cwd=VERIF_ROOT, env=env, stdout=log, stderr=log)
+            procs.append((i, pr, outp, log))
+        outs = []
+        budget = float(os.environ.get("VERIF_WALL_BUDGET_S", "1500" if tier == "quick" else "21600"))
+        t_end = time.time() + budget
+        for i, pr, outp, log in procs:
+            try:
+                pr.wait(timeout=max(1.0, t_end - time.time()))
+            except subprocess.TimeoutExpired:
+                pr.kill()
+            log.close()
+            if os.path.exists(outp):
+                with open(outp) as f:
+                    o = json.load(f)
+                # last libFuzzer status line: coverage counters of the campaign
+                try:
+                    import re
+                    lines = [l for l in open(os.path.join(tmp, f"w{i}.log"), errors="replace") if " cov: " in l]
+                    if lines:
+                        mm = re.search(r"cov: (\d+) ft: (\d+) corp: (\d+)", lines[-1])
+                        o.setdefault("fuzz", {}).update(edges_covered=int(mm.group(1)), features=int(mm.group(2)), corpus_inputs=int(mm.group(3)))
+                except Exception:
+                    pass
+                outs.append(o)
+            else:
+                tail = "".join(open(os.path.join(tmp, f"w{i}.log"), errors="replace").readlines()[-15:])
+                outs.append({"shard": 1000 + i, "violations": [],
+                             "harness_error": f"coverage-guided worker {i} left no record (exit {pr.returncode}):\n{tail}"})
+        return outs
+    finally:
+        shutil.rmtree(tmp, ignore_errors=True)
+
+
 def main(argv=None):
     ap = argparse.ArgumentParser()
     ap.add_argument("pid")
@@ -302,7 +407,9 @@ def main(argv=None):
     nshards = a.shards or int(os.environ.get("VERIF_JOBS", "0")) or _default_shards(pid, a.tier)
     prop_filter = [p for p in a.props.split(",") if p]
     work = [(pid, a.tier, seed, i, nshards, prop_filter) for i in range(nshards)]
-    if nshards == 1:
+    if os.environ.get("VERIF_FUZZ") == "only":     # developer switch: measure the coverage-guided stage alone
+        outs = []
+    elif nshards == 1:
         outs = [run_shard(work[0])]
     else:
         # a worker that dies (e.g. out of memory inside a mutated algorithm) or never returns must not hang the
@@ -332,7 +439,10 @@ def main(argv=None):
                 except Exception:
                     pass
         ex.shutdown(wait=False, cancel_futures=True)
+    fuzz_outs = run_fuzz_stage(pid, a.tier, seed, prop_filter)
+    outs = outs + fuzz_outs
     m = merge(outs)
+    m["fuzz"] = [o["fuzz"] for o in fuzz_outs if o.get("fuzz")]
     wall = time.time() - t0
 
     known = {k["id"]: k for k in load_known_findings()}
